@@ -88,10 +88,10 @@ theorem initEK_accepts_iff (p : BlakeInitEK.P) :
       simp only [epv_cond]
       rw [div_lt_iff₀ (by linarith)]
       linarith
-    have hc7 : BlakeInitEK.c7 p := by simp only [epv_cond]; exact hgeo
-    have hc8 : BlakeInitEK.c8 p := by simp only [epv_cond]; exact hrho
-    have hc9 : BlakeInitEK.c9 p := by simp only [epv_cond]; exact hrad
-    have hc10 : BlakeInitEK.c10 p := by simp only [epv_cond]; exact hprs
+    have hc7 : BlakeInitEK.c7 p := by simp only [epv_cond]; first | exact hgeo | exact hrho | exact hrad | exact hprs
+    have hc8 : BlakeInitEK.c8 p := by simp only [epv_cond]; first | exact hgeo | exact hrho | exact hrad | exact hprs
+    have hc9 : BlakeInitEK.c9 p := by simp only [epv_cond]; first | exact hgeo | exact hrho | exact hrad | exact hprs
+    have hc10 : BlakeInitEK.c10 p := by simp only [epv_cond]; first | exact hgeo | exact hrho | exact hrad | exact hprs
     simp only [epv_tree, hc0, hc1, hc2, hc4, hc5, hc6, hc7, hc8, hc9, hc10, if_true, if_false, ite_self]
 
 /-- pair (E, K): **the constructed solver is in the domain of the C15 field theorems** — the attributes `_run` reads
@@ -185,10 +185,10 @@ theorem initEM_accepts_iff (p : BlakeInitEM.P) :
       simp only [epv_cond]
       rw [div_lt_iff₀ hy]
       linarith
-    have hc7 : BlakeInitEM.c7 p := by simp only [epv_cond]; exact hgeo
-    have hc8 : BlakeInitEM.c8 p := by simp only [epv_cond]; exact hrho
-    have hc9 : BlakeInitEM.c9 p := by simp only [epv_cond]; exact hrad
-    have hc10 : BlakeInitEM.c10 p := by simp only [epv_cond]; exact hprs
+    have hc7 : BlakeInitEM.c7 p := by simp only [epv_cond]; first | exact hgeo | exact hrho | exact hrad | exact hprs
+    have hc8 : BlakeInitEM.c8 p := by simp only [epv_cond]; first | exact hgeo | exact hrho | exact hrad | exact hprs
+    have hc9 : BlakeInitEM.c9 p := by simp only [epv_cond]; first | exact hgeo | exact hrho | exact hrad | exact hprs
+    have hc10 : BlakeInitEM.c10 p := by simp only [epv_cond]; first | exact hgeo | exact hrho | exact hrad | exact hprs
     simp only [epv_tree, hc0, hc1, hc2, hc4, hc5, hc6, hc7, hc8, hc9, hc10, if_true, if_false, ite_self]
 
 /-- pair (E, M): **the constructed solver is in the domain of the C15 field theorems** — the attributes `_run` reads
@@ -261,10 +261,10 @@ theorem initNuK_accepts_iff (p : BlakeInitNuK.P) :
     have hc3 : BlakeInitNuK.c3 p := by
       simp only [epv_cond]
       positivity
-    have hc4 : BlakeInitNuK.c4 p := by simp only [epv_cond]; exact hgeo
-    have hc5 : BlakeInitNuK.c5 p := by simp only [epv_cond]; exact hrho
-    have hc6 : BlakeInitNuK.c6 p := by simp only [epv_cond]; exact hrad
-    have hc7 : BlakeInitNuK.c7 p := by simp only [epv_cond]; exact hprs
+    have hc4 : BlakeInitNuK.c4 p := by simp only [epv_cond]; first | exact hgeo | exact hrho | exact hrad | exact hprs
+    have hc5 : BlakeInitNuK.c5 p := by simp only [epv_cond]; first | exact hgeo | exact hrho | exact hrad | exact hprs
+    have hc6 : BlakeInitNuK.c6 p := by simp only [epv_cond]; first | exact hgeo | exact hrho | exact hrad | exact hprs
+    have hc7 : BlakeInitNuK.c7 p := by simp only [epv_cond]; first | exact hgeo | exact hrho | exact hrad | exact hprs
     simp only [epv_tree, hc0, hc1, hc2, hc3, hc4, hc5, hc6, hc7, if_true, if_false, ite_self]
 
 /-- pair (ν, K): **the constructed solver is in the domain of the C15 field theorems** — the attributes `_run` reads
@@ -337,10 +337,10 @@ theorem initNuM_accepts_iff (p : BlakeInitNuM.P) :
     have hc3 : BlakeInitNuM.c3 p := by
       simp only [epv_cond]
       positivity
-    have hc4 : BlakeInitNuM.c4 p := by simp only [epv_cond]; exact hgeo
-    have hc5 : BlakeInitNuM.c5 p := by simp only [epv_cond]; exact hrho
-    have hc6 : BlakeInitNuM.c6 p := by simp only [epv_cond]; exact hrad
-    have hc7 : BlakeInitNuM.c7 p := by simp only [epv_cond]; exact hprs
+    have hc4 : BlakeInitNuM.c4 p := by simp only [epv_cond]; first | exact hgeo | exact hrho | exact hrad | exact hprs
+    have hc5 : BlakeInitNuM.c5 p := by simp only [epv_cond]; first | exact hgeo | exact hrho | exact hrad | exact hprs
+    have hc6 : BlakeInitNuM.c6 p := by simp only [epv_cond]; first | exact hgeo | exact hrho | exact hrad | exact hprs
+    have hc7 : BlakeInitNuM.c7 p := by simp only [epv_cond]; first | exact hgeo | exact hrho | exact hrad | exact hprs
     simp only [epv_tree, hc0, hc1, hc2, hc3, hc4, hc5, hc6, hc7, if_true, if_false, ite_self]
 
 /-- pair (ν, M): **the constructed solver is in the domain of the C15 field theorems** — the attributes `_run` reads
@@ -411,10 +411,10 @@ theorem initKM_accepts_iff (p : BlakeInitKM.P) :
     have hc3 : BlakeInitKM.c3 p := by
       simp only [epv_cond]
       linarith
-    have hc5 : BlakeInitKM.c5 p := by simp only [epv_cond]; exact hgeo
-    have hc6 : BlakeInitKM.c6 p := by simp only [epv_cond]; exact hrho
-    have hc7 : BlakeInitKM.c7 p := by simp only [epv_cond]; exact hrad
-    have hc8 : BlakeInitKM.c8 p := by simp only [epv_cond]; exact hprs
+    have hc5 : BlakeInitKM.c5 p := by simp only [epv_cond]; first | exact hgeo | exact hrho | exact hrad | exact hprs
+    have hc6 : BlakeInitKM.c6 p := by simp only [epv_cond]; first | exact hgeo | exact hrho | exact hrad | exact hprs
+    have hc7 : BlakeInitKM.c7 p := by simp only [epv_cond]; first | exact hgeo | exact hrho | exact hrad | exact hprs
+    have hc8 : BlakeInitKM.c8 p := by simp only [epv_cond]; first | exact hgeo | exact hrho | exact hrad | exact hprs
     simp only [epv_tree, hc0, hc1, hc2, hc3, hc5, hc6, hc7, hc8, if_true, if_false, ite_self]
 
 /-- pair (K, M): **the constructed solver is in the domain of the C15 field theorems** — the attributes `_run` reads
